@@ -18,7 +18,12 @@ for path in sorted(glob.glob(os.path.join(HERE, "seeded", "*", "meta.json"))):
     q = re.sub(r".*replays/[^/]+/", "", viol[0]).replace(".json", "") if viol else "-"
     word = {0: "MISSED", 1: "caught", 3: "harness-error", None: "?"}
     now = word.get(re_ if re_ is not None else first, str(re_))
+    extra = ""
+    if c.get("other_checks"):
+        extra = " [" + "; ".join(f"{k}: {v}" for k, v in c["other_checks"].items())[:160] + "]"
+    if c.get("note"):
+        extra += " (" + c["note"][:160] + ")"
     rows.append(f"{os.path.basename(os.path.dirname(path)):7} breaks {m.get('property'):4} at arrival: {word.get(first, first):7} now: {now:7} "
-                f"first violated query: {q:60} | {(m.get('title') or '')[:110]}")
+                f"first violated query: {q:60} | {(m.get('title') or '')[:110]}{extra}")
 open(os.path.join(HERE, "seeded", "MATRIX.txt"), "w").write("\n".join(rows) + "\n")
 print(f"{len(rows)} seeds; missed at arrival: {sum(' at arrival: MISSED' in r for r in rows)}; missed now: {sum(' now: MISSED' in r for r in rows)}")
